@@ -412,7 +412,10 @@ class Interp:
             s.ctx.obj_types[oid] = et
             s.ctx.init_heap[oid] = zero(et)
             pk = gi['pkg']
-            if pk and pk not in s.ctx.inited_pkgs and not s.ctx.in_init and name not in ZERO_GLOBALS:
+            if name == 'crypto/rand.Reader':
+                # the system random source: an opaque reader whose Read yields fresh nondeterministic bytes
+                s.ctx.init_heap[oid] = Iface('$randreader', None)
+            elif pk and pk not in s.ctx.inited_pkgs and not s.ctx.in_init and name not in ZERO_GLOBALS:
                 raise Unsupported(f'global {name} of package {pk} whose initialiser was not run (add to init_pkgs)')
         oid = g[name]
         if oid not in st.heap:
